@@ -433,18 +433,25 @@ class _Timeout(Exception):
 
 
 def _with_alarm(seconds, fn):
+    """fn() with a time budget.  The timer re-fires every half second after the budget: an exception raised by the handler while
+    the interpreter runs a GC callback or a __del__ is swallowed ("Exception ignored in ..."), and a one-shot alarm would then
+    leave fn() running without any limit."""
     import signal
+    state = dict(active=True)
 
     def h(sig, frm):
-        raise _Timeout()
+        if state["active"]:
+            raise _Timeout()
     old = signal.signal(signal.SIGALRM, h)
-    signal.alarm(seconds)
+    signal.setitimer(signal.ITIMER_REAL, max(float(seconds), 0.05), 0.5)
     try:
         return fn()
     except _Timeout:
+        state["active"] = False
         return None
     finally:
-        signal.alarm(0)
+        state["active"] = False
+        signal.setitimer(signal.ITIMER_REAL, 0)
         signal.signal(signal.SIGALRM, old)
 
 
